@@ -17,7 +17,7 @@ MANIFEST = dict(
     technique='Coq proof (loop invariants with fuel, bit-level rewriting, integer arithmetic over N/Z, finite sweeps by vm_compute) about '
               'algorithm-faithful hand models of the rendered C, C++ and Python support code; extracted-model vs. implementation '
               'correspondence on exhaustive small-parameter sweeps; independent big-integer oracle as falsifier',
-    text='38 theorems (mostly conjunctions of lemmas of Prims/*Thm.v, each named in the proof) + 10 examples in coq/theories/Properties/C14.v, each for EVERY offset, length, buffer, declared size and value (no '
+    text='36 theorems (mostly conjunctions of lemmas of Prims/*Thm.v, each named in the proof) + 10 examples in coq/theories/Properties/C14.v, each for EVERY offset, length, buffer, declared size and value (no '
          'bound; preconditions of the code\'s contract as guards). C (both target_endianness renderings): nunavutCopyBits copies '
          'exactly the addressed bits, leaves every other bit untouched, no out-of-range access (memmove path and bit loop); '
          'SaturateBufferFragmentBitLength; GetBits zero-extends and zero-pads; SetUxx/SetIxx/SetBit report a too-small buffer iff '
@@ -47,15 +47,14 @@ MANIFEST = dict(
          '_ensure_writable): every writer either lands exactly the requested bits or raises with nothing stored, for every cursor, '
          'length and buffer size (C14_py_too_small_reported + _derived: all 27 writers incl. signed, i8..i64, floats, arrays, '
          'pad_to_alignment); the pre-fix text and its refutation are History/C14_py_history.v. C++ padAndMoveToAlignment / '
-         'subspan(bits_at, size_bits) over the whole size_t range of their arguments: the text in /repo is refuted '
-         '(C14_cpp_pad_truncation_refuted, C14_cpp_subspan_wrap_refuted; known findings F-BITSPAN-PAD-TRUNC, F-BITSPAN-SUBSPAN-WRAP, '
-         'reproduced on the real build on every run), the text of design_notes/C14_bitspan_wrap_fix.patch meets the contract at every '
-         'argument (C14_cpp_pad_every_alignment, C14_cpp_subspan_every_offset). Static ties: AST shape pin of 81 Python methods + the '
+         'subspan(bits_at, size_bits) over the whole size_t range of their arguments (text of /repo fcc36ca): '
+         'C14_cpp_pad_every_alignment, C14_cpp_subspan_every_offset; the text of before (padding cast to uint8_t, wrapping sums; '
+         'findings F-BITSPAN-PAD-TRUNC, F-BITSPAN-SUBSPAN-WRAP, fixed) and its refutations are History/C14_history.v. Static ties: AST shape pin of 81 Python methods + the '
          'member lists of the 7 classes (ONE accepted shape) and token-stream pin of every function of the rendered C and C++ headers '
          'for 25 option combinations (every Jinja branch: endianness x asserts x omit_float; C++ standards/flavours incl. pmr and cetl); '
          'the hash of each regenerated dump must equal the hash the model file names as the text it models (modelled_*_sha); fix '
          'facts regenerated from /repo are obligations by reflexivity (C14_py_capacity_test_live: f2fd316, '
-         'C14_setuxx_saturating_check_live: ba46e0a, C14_bitspan_fix_state: pending patch absent), so reverting a landed fix breaks '
+         'C14_setuxx_saturating_check_live: ba46e0a, C14_bitspan_fix_state: fcc36ca), so reverting a landed fix breaks '
          'the proof layer; a witness of a `fixed` finding that reproduces is reported as the failing input. Tie: extracted models vs. the headers/module rendered by nnvg from /repo (C any/little/'
          'big x asserts on/off, gcc + clang ASan/UBSan, + an omit-float rendering; C++14 (17, 20 thorough) x asserts, g++ + clang++ ASan, + '
          'the target_endianness=little rendering and a c++17-pmr omit-float rendering; 32-bit size_t: three C and three C++ renderings '
@@ -1269,9 +1268,7 @@ def run_shard(job: dict) -> dict:
                 pv = verdicts[i]
                 if pv is None or pv[0] != got:
                     pv = verdicts[i] = (got, meets(e, got))
-                if not pv[1] and bitspan_trigger(lines[i]) in job.get('known_live', ()) and mo is not None and mo[i] == got:
-                    res['known_instances'] = res.get('known_instances', 0) + 1      # trigger of a live known finding holds, quirk model agrees
-                elif not pv[1] and len(res['oracle_bad']) < 50:
+                if not pv[1] and len(res['oracle_bad']) < 50:
                     res['oracle_bad'].append({'target': name, 'line': lines[i], 'expected_by_property': str(e), 'implementation': got,
                                               'model': mo[i] if mo else None})
             if mo is not None:
@@ -1284,8 +1281,6 @@ def run_shard(job: dict) -> dict:
         if mo is None:
             continue
         for i, got in enumerate(mo):
-            if bitspan_trigger(lines[i]) in job.get('known_live', ()):
-                continue      # the quirk model of a live known finding is not held against the property
             if expected[i] is not None and not meets(expected[i], got) and len(res['model_bad']) < 50:
                 res['model_bad'].append({'target': 'model ' + m, 'line': lines[i], 'model': got, 'expected_by_property': str(expected[i])})
     res['strata'] = sorted(res['strata'])
@@ -1326,23 +1321,6 @@ PAD_ID = 'F-BITSPAN-PAD-TRUNC'
 SUB_ID = 'F-BITSPAN-SUBSPAN-WRAP'
 PAD_WITNESS = 'xpad ' + '00' * 80 + ' 80 8 512'
 SUB_WITNESS = 'xsub2 4 4 8 18446744073709551609 8'
-
-
-def is_wide_pad(line: str) -> bool:
-    return line.startswith('xpad ') and int(line.rsplit(' ', 1)[1]) > 255
-
-
-def bitspan_trigger(line: str) -> typing.Optional[str]:
-    """id of the known finding whose trigger the call meets: an alignment that does not fit uint8_t; a subspan whose offset sum or
-    size sum passes 2^64"""
-    if is_wide_pad(line):
-        return PAD_ID
-    if line.startswith('xsub2 '):
-        t = line.split(' ')
-        off, at, sb = int(t[3]), int(t[4]), int(t[5])
-        if off + at >= (1 << 64) or (off + at) % 8 + sb >= (1 << 64):
-            return SUB_ID
-    return None
 
 
 def ensure_known_loaded(chk: core.Check) -> None:
@@ -1420,9 +1398,7 @@ def main(chk: core.Check, replay: typing.Optional[str] = None) -> int:
 
     # Findings with a witness: each witness is run on the real builds, in a process of its own, on EVERY run.
     #   status fixed + witness reproduces  -> the defect is back: VIOLATION with the witness as failing input;
-    #   status known + witness reproduces  -> KNOWN-FINDING line, the model of the text in /repo (which has the quirk) is compared,
-    #                                         calls that meet the finding's trigger and agree with that model are counted, not reported;
-    #   witness does not reproduce         -> the conformant model is compared and every call must meet the property.
+    #   (no C14 finding is `known` at present: all four are fixed; the models are the fixed texts, nothing is excused.)
     ensure_known_loaded(chk)
     regressions: typing.List[dict] = []
     wrap = probe_offset_wrap(chk, dict(targets, **cpp_targets))                       # F-SETUXX-OFFSET-WRAP, fixed in /repo ba46e0a
@@ -1443,8 +1419,7 @@ def main(chk: core.Check, replay: typing.Optional[str] = None) -> int:
         if py_drop_live:
             regressions.append({'target': 'py_support', 'line': w, 'implementation': o[0], 'finding': DROP_ID,
                                 'expected_by_property': 'EXC@1 (the write does not fit: an exception, nothing stored)'})
-    known_live: typing.List[str] = []
-    bitspan = {}
+    bitspan = {}                                                                      # F-BITSPAN-PAD-TRUNC / -SUBSPAN-WRAP, fixed in /repo fcc36ca
     probe_t = cpp_targets.get('cpp_cpp14_noasserts')
     for fid, w, good in ((PAD_ID, PAD_WITNESS, lambda o: o[0].startswith(('0 512 ', '-3 '))), (SUB_ID, SUB_WITNESS, lambda o: o[0] == '-3')):
         if not probe_t:
@@ -1453,13 +1428,10 @@ def main(chk: core.Check, replay: typing.Optional[str] = None) -> int:
         live = not (rc == 0 and o and good(o))
         bitspan[fid] = 'reproduces: ' + (o[0][:40] if o else 'crash (exit %s)' % rc) if live else 'does not reproduce'
         if live and chk.is_known(fid):
-            chk.report_known(fid)
-            known_live.append(fid)
+            chk.report_known(fid)       # only if the lead sets the entry back to `known`; the model is the fixed text either way
         elif live:
             regressions.append({'target': 'cpp_cpp14_noasserts', 'line': w, 'implementation': o[0] if o else 'crash (exit %s)' % rc, 'finding': fid,
                                 'expected_by_property': '0 512 <80 zero bytes> (cursor on a multiple of 512)' if fid == PAD_ID else '-3 (offset beyond the buffer)'})
-    cpp_model = 'cpp' + ('' if bitspan.get(PAD_ID, '').startswith('reproduces') else '+pad') + ('' if bitspan.get(SUB_ID, '').startswith('reproduces') else '+sub')
-    cpp_targets = {k: dict(v, model=cpp_model) for k, v in cpp_targets.items()}
     timing['builds_s'] = round(time.time() - t0 - timing['coq_s'], 1)
     t1 = time.time()
     # 3. cases
@@ -1482,21 +1454,17 @@ def main(chk: core.Check, replay: typing.Optional[str] = None) -> int:
     cpp_noassert = {k: v for k, v in cpp_targets.items() if 'noasserts' in k}
     is_x = lambda l: l[0] == 'x'
     is_xsub = lambda l: l.startswith(('xsub', 'xat', 'xob', 'xmis', 'xso'))
-    # while F-BITSPAN-PAD-TRUNC is live the assert builds abort on its trigger (assert(offset_alings_to(n_bits))): those calls go to
-    # the builds without asserts only
-    wide_pad_targets = cpp_noassert if PAD_ID in known_live else cpp_targets
     jobs = []
     for fam_targets, fam_lines, mfa in ((all_targets, [l for l in lines if not l.startswith('f16p ') and not is_x(l) and not is_py(l)], None),
                                         (py_targets, [l for l in lines if is_py(l)], None),
                                         (py_f16, f16_sample, None),
-                                        (cpp_targets, [l for l in lines if is_x(l) and not is_xsub(l) and not is_wide_pad(l)], None),
-                                        (wide_pad_targets, [l for l in lines if is_wide_pad(l)], None),
+                                        (cpp_targets, [l for l in lines if is_x(l) and not is_xsub(l)], None),
                                         (cpp_noassert, [l for l in lines if is_xsub(l)], None),
                                         (grid_targets, [l for l in lines if l.startswith('f16p ')], 'c-any')):
         if not fam_targets:
             continue
         jobs += [{'lines': fam_lines[i:i + chunk], 'targets': fam_targets, 'model_exe': mexe, 'tie_stats_target': tie_target, 'model_for_all': mfa,
-                  'known_live': tuple(known_live)}
+                  }
                  for i in range(0, len(fam_lines), chunk)]
     results = []
     with concurrent.futures.ProcessPoolExecutor(max_workers=min(8, max(1, len(jobs)))) as ex:
@@ -1563,8 +1531,7 @@ def main(chk: core.Check, replay: typing.Optional[str] = None) -> int:
                          'copy_strata_src_mod8_dst_mod8_len_mod8': '%d of 512' % len(strata),
                          'float16_pack_C_vs_struct_e': f16_vs_struct,
                          'float16_native_sweep_no_model': native,
-                         'offset_wrap_probe': wrap, 'py_silent_drop_live': py_drop_live, 'bitspan_probes': bitspan, 'cpp_model_variant': cpp_model,
-                         'known_finding_instances': sum(r.get('known_instances', 0) for r in results),
+                         'offset_wrap_probe': wrap, 'py_silent_drop_live': py_drop_live, 'bitspan_probes': bitspan,
                          'float16_rounding_rules': 'C/C++ nunavutFloat16Pack: nearest, ties away from zero (proved: f16_rounding_rule); '
                                                    'Python struct/NumPy: nearest, ties to even; both are allowed by C14 (nearest or adjacent)'},
     })
